@@ -1612,7 +1612,9 @@ func (self *Fork) serializePerf(ctx context.Context) (*ForkPerfInfo, *VDRKillRep
 
 	killReports := make([]*VDRKillReport, 1, len(self.node.subnodes)+1)
 	killReports[0], _ = self.getVdrKillReport()
-	for _, node := range self.node.subnodes {
+	// Sorted, so that the paths and errors of the merged kill report are
+	// listed in a repeatable order.
+	for _, node := range self.node.sortedSubnodes() {
 		if ctx.Err() != nil {
 			return nil, nil
 		}
